@@ -45,6 +45,8 @@ static int      prov_batch_reads; /* the socket layer hands over everything that
 static uint32_t prov_variants_seen;
 /* guard: the packet read last in the current processing call is a well-formed forgery that must be dropped without
  * any effect, and the query it names is not due for a retry by its own timeout */
+static uint32_t prov_proof_candidate; /* genuine cookie-bearing reply read last, not yet known to have been processed */
+static int      prov_faults_at_read;
 static uint32_t prov_guard_serial;
 static int      prov_guard_call;
 static uint16_t prov_guard_qid;
@@ -77,11 +79,20 @@ static void prov_on_read(int fd, uint32_t serial)
     }
   }
   prov_proven_at_read[serial - 1] = (pi->srv >= 0 && pi->srv < SIM_MAXSRV) ? prov_srv_proven[pi->srv] : 0;
+  prov_proof_candidate = 0;
   if (!prov_variant_of[serial - 1] && !pi->forged && pi->srv_cookie && prov_conn_ok[serial - 1] && prov_cookie_live[serial - 1] &&
       pi->srv >= 0 && pi->srv < SIM_MAXSRV) {
-    /* a genuine reply carrying a server cookie reached the query it answers: support is proven */
-    prov_srv_proven[pi->srv] = 1;
+    /* a genuine reply carrying a server cookie reached the query it answers: support is proven - once the library
+     * has actually processed it (a datagram that was read is thrown away unprocessed when a later read on the same
+     * socket fails), which the success notification for its server shows; with batched reads that cannot be
+     * attributed, and those cases run without socket faults */
+    if (prov_batch_reads) {
+      prov_srv_proven[pi->srv] = 1;
+    } else {
+      prov_proof_candidate = serial;
+    }
   }
+  prov_faults_at_read = sim_faults_fired;
   if (prov_variant_of[serial - 1]) {
     const char *why = "";
     if (!prov_effectively_forged_fwd(serial, &why)) {
@@ -120,6 +131,10 @@ static void prov_on_tx(int srvidx, int fd, int is_tcp, const uint8_t *msg, size_
   (void)fd;
   (void)is_tcp;
   if (len < 2 || prov_guard_serial == 0 || prov_guard_call != app_process_count) {
+    return;
+  }
+  if (sim_faults_fired != prov_faults_at_read) {
+    prov_guard_serial = 0; /* a socket call failed since: the connection's queries are re-sent for that reason */
     return;
   }
   MON_EVAL("prov_no_effect_of_forged");
@@ -213,8 +228,11 @@ static void mon_prov_tok_done(app_tok_t *t)
 static void mon_prov_server_state(int srv, int success, int flags)
 {
   const char *why = "";
-  (void)srv;
   (void)flags;
+  if (success && prov_proof_candidate != 0 && prov_proof_candidate == prov_last_read_serial &&
+      sim_pktinfo[prov_proof_candidate - 1].srv == srv && srv >= 0 && srv < SIM_MAXSRV) {
+    prov_srv_proven[srv] = 1;
+  }
   if (!success || prov_last_read_serial == 0 || prov_batch_reads) {
     return; /* (with batched reads a notification cannot be attributed to one packet) */
   }
@@ -516,6 +534,11 @@ static void gen_prov(vh_rng_t *rng)
   mon_enable_idx = mon_enable_fd = mon_enable_timer = 0;
   mon_enable_net                                    = 0;
   net_unique_names                                  = 0;
+  if (!prov_batch_reads && vh_chance(rng, 1, 5)) {
+    /* socket calls that fail now and then: attempts end on the spot, connections are replaced */
+    sim_rand_fault_permille = vh_chance(rng, 1, 2) ? 15 : 50;
+    sim_note("prov_with_socket_faults");
+  }
   app_sched.max_steps                               = 30000;
   app_sched.idle_ms_after                           = 100;
   horizon = (int64_t)app_cfg.timeout_ms * 1000 * (app_cfg.tries + 1);
